@@ -37,6 +37,13 @@ Theorem C02_mix_wrong_size_aborts : forall (card secret : Type) (mask : card -> 
 Proof. exact mix_assert. Qed.
 Print Assumptions C02_mix_wrong_size_aborts.
 
+(* the call as made by the code (clear the result object, then bounded pushes): the result does not depend on the
+   previous content of the result stack -- it is a function of (s, ss) only *)
+Theorem C02_mix_result_independent_of_old_content : forall (card secret : Type) (mask : card -> secret -> card) old s ss,
+  mix_into card secret mask old s ss = mix card secret mask s ss.
+Proof. exact mix_into_ignores_old. Qed.
+Print Assumptions C02_mix_result_independent_of_old_content.
+
 (* the i-th card opens to the type of the designated input card *)
 Theorem C02_mix_type_nth : forall (card secret : Type) (mask : card -> secret -> card) (T : Type) (open : card -> T),
   (forall c r, open (mask c r) = open c) ->
